@@ -75,7 +75,7 @@ func (c *clientModel) noteClosed() {
 func (c *clientModel) Connect() {
 	w := c.w
 	cl, gate := w.r.Pipe(fmt.Sprintf("client%d", c.idx), fmt.Sprintf("gate<client%d", c.idx),
-		simnet.Options{Seg: w.seg, AddrA: simnet.TCP(c.IP, 40000+c.idx), AddrB: simnet.TCP("10.0.0.1", 25565)})
+		simnet.Options{Seg: w.seg, Window: w.clientWindow, AddrA: simnet.TCP(c.IP, 40000+c.idx), AddrB: simnet.TCP("10.0.0.1", 25565)})
 	c.conn = cl
 	c.crypt = &cryptConn{Conn: cl}
 	c.wire = newWireEnd(c.crypt, proto.ClientBound, c.Prot, &w.seq)
